@@ -18,7 +18,7 @@ pub const SPEC: PropSpec = PropSpec {
     level: "exploration",
     rule: "Cases = (value, serializer configuration incl. root name). Values: the 16 family types generated twice from the same seed - once with hostile payloads without any domain filter (markup characters, ']]>', '--', '?>', NUL, newlines, entity look-alikes, leading/trailing whitespace, empty and space-containing list items) and once with unique markup-free stand-ins of the same emptiness - plus 28 serialize-only shapes outside the round-trippable domain (maps with arbitrary keys incl. '', '@', '@x y', '$text', '<', 'a:b'; Option without skip; nested sequences; bytes; unit/newtype/struct variants and fields renamed to '<', 'a b', '1a', '', '@<'; 60-deep nesting; bare primitives) and root names from an arbitrary-string pool. If serialization returns Ok: (a) quick-xml's reader with all checks on must read the document without error and with no element left open, and every attribute list must iterate without error; (b) every element and attribute name must satisfy an independent XML 1.1 Name validator; (c) the markup skeleton (element nesting and names, attribute names) of the hostile document must equal that of the stand-in document and every payload slot (text, attribute value, list item) must unescape to exactly the hostile payload. SeError is an allowed outcome. Non-trivial = the value contains a markup-significant payload character or a non-name key/root.",
     assumptions: &["the reader is used as a tool (C01/C11 judge it)", "the Name validator is written from the XML 1.1 productions NameStartChar / NameChar", "slot alignment relies on the generator consuming identical randomness in both payload modes"],
-    required: &["ser.ok", "ser.err", "names_validated", "names_rejected_by_serializer", "slots_compared", "slots.list_items", "skeletons_compared", "types_seen_all", "bad_root_names_tried", "configs_seen_all36"],
+    required: &["ser.ok", "ser.err", "names_validated", "names_rejected_by_serializer", "slots_compared", "slots.list_items", "skeletons_compared", "types_seen_all", "bad_root_names_tried", "configs_seen_all36", "entry_points_compared", "limited_sinks_tried"],
     run,
     replay,
     thorough_layers: &[],
@@ -52,6 +52,8 @@ struct Local {
     types: BTreeMap<&'static str, u64>,
     cfgs: BTreeMap<usize, u64>,
     hostile_err_benign_ok: u64,
+    entry_points: u64,
+    limited_sinks: u64,
 }
 
 pub fn is_name_start(c: char) -> bool {
@@ -280,6 +282,65 @@ fn check_family(gen: fn(&mut Rng) -> Box<dyn Val>, name: &str, vseed: u64, cfg: 
     Ok(true)
 }
 
+/// An io::Write that accepts at most `cap` bytes and then fails.
+struct Limited {
+    data: Vec<u8>,
+    cap: usize,
+}
+impl std::io::Write for Limited {
+    fn write(&mut self, buf: &[u8]) -> std::io::Result<usize> {
+        if self.data.len() + buf.len() > self.cap {
+            let room = self.cap - self.data.len();
+            if room == 0 {
+                return Err(std::io::Error::new(std::io::ErrorKind::WriteZero, "sink is full"));
+            }
+            self.data.extend_from_slice(&buf[..room]);
+            return Ok(room);
+        }
+        self.data.extend_from_slice(buf);
+        Ok(buf.len())
+    }
+    fn flush(&mut self) -> std::io::Result<()> {
+        Ok(())
+    }
+}
+
+/// All serializer entry points must agree: to_string / to_writer / to_utf8_io_writer (and the
+/// *_with_root variants through ser_with). If a call returns Ok, what reached the sink is the
+/// complete document; a sink that cannot take the whole document must make the call fail.
+fn check_entry_points(v: &dyn Val, loc: &mut Local, r: &mut Rng) -> Result<(), String> {
+    let a = match v.se_to_string() {
+        Ok(a) => a,
+        Err(_) => return Ok(()),
+    };
+    let b = v.se_to_writer().map_err(|e| format!("to_writer fails ({}) although to_string succeeds", e))?;
+    if a != b {
+        return Err(format!("to_writer produced {:?} but to_string {:?}", b, a));
+    }
+    let mut c: Vec<u8> = Vec::new();
+    v.se_to_io(&mut c).map_err(|e| format!("to_utf8_io_writer fails ({}) although to_string succeeds", e))?;
+    if a.as_bytes() != &c[..] {
+        return Err(format!("to_utf8_io_writer produced {:?} but to_string {:?}", String::from_utf8_lossy(&c), a));
+    }
+    loc.entry_points += 1;
+    if !a.is_empty() {
+        // a sink with room for only a part of the document
+        let cap = r.below(a.len());
+        let mut sink = Limited { data: Vec::new(), cap };
+        let res = v.se_to_io(&mut sink);
+        loc.limited_sinks += 1;
+        if res.is_ok() {
+            return Err(format!(
+                "to_utf8_io_writer returned Ok although the sink accepted only {} of {} bytes: the output {:?} is not the document",
+                cap,
+                a.len(),
+                String::from_utf8_lossy(&sink.data)
+            ));
+        }
+    }
+    Ok(())
+}
+
 /// serialize-only shapes: (a) and (b) only
 fn check_ser_only(gen: fn(&mut Rng) -> Box<dyn Val>, vseed: u64, cfg: &SerCfg, loc: &mut Local) -> Result<bool, String> {
     set_mode(MODE_HOSTILE_RAW);
@@ -345,6 +406,18 @@ fn run(ctx: &mut Ctx) {
                     break 'outer;
                 }
             }
+            // the other serializer entry points, also into a sink that is too small
+            if k % 4 == 1 {
+                let v = (ops.gen.unwrap())(&mut Rng::new(vseed));
+                let case = json!({"type": ops.name, "family": true, "value_seed": vseed, "entry_points": true});
+                ctx.eval(H::new().str(ops.name).u64(vseed).u64(0xE9).finish(), true);
+                if let Err(d) = guarded(|| check_entry_points(v.as_ref(), &mut loc, &mut r)).unwrap_or_else(Err) {
+                    ctx.violation(case, d);
+                    if ctx.full() {
+                        break 'outer;
+                    }
+                }
+            }
             // arbitrary root names (not for the top-level enum, whose root is the variant)
             if k % 4 == 0 {
                 let mut cfg = cfgs[r.below(cfgs.len())].clone();
@@ -383,6 +456,8 @@ fn run(ctx: &mut Ctx) {
     ctx.add("slots.list_items", loc.list_items);
     ctx.add("skeletons_compared", loc.skeletons);
     ctx.add("bad_root_names_tried", loc.bad_roots);
+    ctx.add("entry_points_compared", loc.entry_points);
+    ctx.add("limited_sinks_tried", loc.limited_sinks);
     for (k, v) in &loc.types {
         ctx.add(&format!("type.{}", k), *v);
     }
@@ -393,6 +468,19 @@ fn run(ctx: &mut Ctx) {
 
 fn replay(case: &Value, _ctx: &mut Ctx) -> Option<String> {
     let name = case["type"].as_str().unwrap_or("");
+    if case.get("entry_points").is_some() {
+        let fam = family();
+        let ops = fam.iter().find(|o| o.name == name)?;
+        let v = (ops.gen.unwrap())(&mut Rng::new(case["value_seed"].as_u64().unwrap_or(0)));
+        let mut loc = Local::default();
+        // the sink capacity is drawn from a fresh generator: try a spread of capacities
+        for k in 0..64u64 {
+            if let Err(d) = check_entry_points(v.as_ref(), &mut loc, &mut Rng::new(k)) {
+                return Some(d);
+            }
+        }
+        return None;
+    }
     let cfg = SerCfg::from_json(&case["cfg"]);
     let vseed = case["value_seed"].as_u64().unwrap_or(0);
     let mut loc = Local::default();
